@@ -604,7 +604,7 @@ func Oracles(n *Node, in *IVal, dest0 reflect.Value) string {
 	for _, k := range fk {
 		st = append(st, "(("+CoqBool(k[0] == 1)+", "+CoqFloat(math.Float64frombits(k[1]))+"), "+CoqStr(floats[k])+")")
 	}
-	return "let orc := mk_orc " + coqList(pf) + " " + coqList(st) + " " + coqList(tt) + " in\n   let url_tbl := " + coqList(ut) + " in\n   let match_tbl := " + coqList(mt) + " in"
+	return "let orc := mk_orc " + coqList(pf) + " " + coqList(st) + " " + coqList(tt) + " in\n   let url_tbl : list (string * bool) := " + coqList(ut) + " in\n   let match_tbl : list (string * bool) := " + coqList(mt) + " in"
 }
 
 // ---- observed outcome ----
